@@ -11,7 +11,7 @@ import numpy as np
 from hypothesis import strategies as st
 
 from vlib import arrays as A
-from vlib.runner import Part, R
+from vlib.runner import Part, R, make_sweep
 
 PROPERTY = "C09"
 RULE = ("Hypothesis-generated (shape, parameters, dtype) per function; inputs are unique labels 1..N "
@@ -380,7 +380,49 @@ def check_blocks(case):
     return r
 
 
+def sweep_dispatch(case):
+    return {"resize": check_resize, "downsample": check_downsample, "blocks": check_blocks, "circshift": check_circshift}[case["f"]](case)
+
+
+def sweep_configs():
+    """finite sub-domains enumerated completely: centred 1-D resize n -> m for n, m in 1..24; 2-D resize pairs over
+    {1..5}^2 -> {1..5}^2 (pad one axis, crop the other, all parities); 1-D blocks N <= 14, B <= N, S <= B + 2; 1-D
+    down/upsample n <= 14, factor <= 4, shift < factor; 1-D circshift n <= 8, shift in -9..9."""
+    out = []
+    for n in range(1, 25):
+        for m in range(1, 25):
+            out.append({"f": "resize", "x": {"k": "lab", "shape": [n], "dtype": "float64"}, "oshape": [m], "ishift": None,
+                        "oshift": None, "as_tuple": False})
+    for a in range(1, 6):
+        for b in range(1, 6):
+            for c in range(1, 6):
+                for d in range(1, 6):
+                    if (c - a) * (d - b) < 0:
+                        out.append({"f": "resize", "x": {"k": "lab", "shape": [a, b], "dtype": "complex128"}, "oshape": [c, d],
+                                    "ishift": None, "oshift": None, "as_tuple": True})
+    for N in range(1, 15):
+        for B in range(1, N + 1):
+            for S in range(1, B + 3):
+                out.append({"f": "blocks", "batch": [], "N": [N], "B": [B], "S": [S], "dtype": "float64", "seed": N * 100 + B * 10 + S})
+    for n in range(1, 15):
+        for f in range(1, 5):
+            for sh in range(0, min(f, n)):
+                out.append({"f": "downsample", "x": {"k": "lab", "shape": [n], "dtype": "float64"}, "factors": [f],
+                            "shift": [sh] if sh else None})
+    for n in range(1, 9):
+        for sft in range(-9, 10):
+            out.append({"f": "circshift", "x": {"k": "lab", "shape": [n], "dtype": "float64"}, "axes": None, "shifts": [sft]})
+    return out
+
+
+def extra_coverage(tier):
+    return {"exhaustive_subdomains": ["resize: all centred 1-D (n -> m), n, m in 1..24, and all 2-D pad+crop pairs over 1..5; blocks 1-D "
+                                      "N <= 14 x B <= N x S <= B+2; down/upsample n <= 14 x f <= 4 x shift < f; circshift n <= 8 x "
+                                      "shift -9..9 (%d configurations, part 'lengths')" % len(sweep_configs())]}
+
+
 PARTS = [
+    make_sweep("lengths", sweep_configs, sweep_dispatch),
     Part("resize", check_resize, {"quick": 8000, "thorough": 160000}, strategy=st_resize),
     Part("flip", check_flip, {"quick": 2500, "thorough": 40000}, strategy=st_flip),
     Part("circshift", check_circshift, {"quick": 3500, "thorough": 60000}, strategy=st_circshift),
